@@ -196,7 +196,7 @@ AdaptOK(e) ==
     LET ab == ObsMat(e.ab)  ba == ObsMat(e.ba)  aa == ObsMat(e.aa)
         tolM == IF e.a.form = "xyz" /\ e.b.form = "xyz" THEN T1(Tol1e9) ELSE T1(Tol1e6)
     IN /\ ~e.panic                                                   \* no physically valid white is refused
-       /\ NearMat(ab, ExactAdapt(e.a, e.b), tolM)                    \* equals the Bradford matrix
+       /\ NearMat(ab, ExactAdapt(e.a, e.b), Mul(tolM, FromInt(e.mscale)))  \* equals the Bradford matrix (entries of size mscale)
        /\ MapsWhite(ab, e.a, e.b, Mul(T1(Tol1e6), FromInt(e.scale)))  \* A's white -> B's white (10^-6 of the luminance scale)
        /\ \A r \in Idx : \A c \in Idx :                               \* A -> A is the identity
             Near(aa[r][c], IF r = c THEN IFromInt(1) ELSE IZero, IFromInt(1), T1(Tol1e9), S18)
